@@ -30,6 +30,8 @@ inductive Root | global | param | call | alias | viaGlobal
 
 inductive Sync | none | mutex | syncMap | syncMapCasNil | syncMapLoad | once | nilGuardInit | nilGuardNoInit | nilGuardCtor | nilGuardField
   | mutexIfAbsent   -- under a mutex, `M[k] = v` only in the absent-branch of a lookup of M[k]: load-or-publish, FIRST writer wins
+  | syncMapLoadOrStore   -- sync.Map.LoadOrStore: publishes only when absent, the first writer wins (plain `syncMap`:
+                         -- Store / Swap / Delete …, unconditional, the LAST writer wins)
   | appendSpare     -- `append(s, …)` on a slice reachable from shared state: a PLAIN WRITE into the shared backing array whenever cap s > len s
   | appendClipped   -- `append(s[:n:n], …)` / `append(slices.Clip(s), …)`: cap = len, append reallocates, nothing shared is written
   deriving DecidableEq, Repr
@@ -430,7 +432,10 @@ def rowClass : SharedWrite → RowClass
   | .unrecognised _ => .unread
   | .write _ _ _ _ root sync _ via =>
     match sync with
-    | .syncMap | .once => .cache
+    | .once => .cache
+    | .syncMapLoadOrStore => .cacheFirstWins
+    | .syncMap => .lastWriterWins         -- `Store` into a process-wide sync.Map: what a later `Load` returns depends on who
+                                          -- stored last (the seeded `compiledPatterns.Store(pattern, cp)`)
     | .mutexIfAbsent => .cacheFirstWins   -- load-or-publish: every caller goes on with the first published value
     | .mutex => .lastWriterWins           -- unconditional store under a lock: no data race, but what a reader gets back
                                           -- depends on who stored last (F-C15-2 before its repair)
@@ -519,13 +524,21 @@ structure PerCallRow where
   name : String
   declared : Bool          -- the type exists in package openapi3
   inDocument : Bool        -- reachable through the fields of a document struct: then it would be SHARED
+  inGlobal : Bool          -- reachable from the type of a package-level variable (a process-wide cache of such objects)
   writes : Nat             -- writes to its fields in functions reachable from the concurrent entry points
   allocReachable : Bool    -- allocated (composite literal / new) in a reachable function: created inside the call
   allocSites : List String
   deriving DecidableEq, Repr
 
+/-- Types that DO end up in a package-level variable and are nevertheless written by reachable code: the writes
+    happen before the object is published. `theTypeInfo`: getTypeInfo fills `Fields` of the descriptor it has just
+    allocated, then publishes it under `typeInfosMutex` (first wins); nothing writes a descriptor found in the cache
+    (the translator is flow-insensitive and cannot tell the two apart — hence this explicit, checked exemption). -/
+def publishedAfterInit : List String := ["openapi3gen.theTypeInfo"]
+
 def perCallOK (r : PerCallRow) : Bool :=
-  r.declared && !r.inDocument && (r.writes == 0 || r.allocReachable)
+  r.declared && !r.inDocument && (!r.inGlobal || r.writes == 0 || publishedAfterInit.contains r.name) &&
+  (r.writes == 0 || r.allocReachable)
 
 def rowFn : SharedWrite → String
   | .write _ _ fn _ _ _ _ _ => fn
